@@ -300,7 +300,7 @@ impl Property for P {
         for _ in 0..nops {
             let x = r.below(100);
             if x < 22 {
-                let kind = if r.chance(1, 12) { 1 } else if r.chance(1, 25) { 2 } else { 0 };
+                let kind = if r.chance(1, 12) { 1 } else if r.chance(1, 12) { 2 } else { 0 };
                 c.ops.push(Op::Submit(r.below(4) as u32, kind)); queued.push(kind);
             } else if x < 44 {
                 c.ops.push(Op::Pump);
